@@ -242,7 +242,9 @@ pub fn log_enter(tag: u64, ep: Ep, env: &Env, info: Option<&MessageInfo>, p: &Pr
         sender: info.map(|i| i.sender.to_string()),
         funds: info.map(|i| coins_from_std(&i.funds)).unwrap_or_default(),
         block: block_from_std(&env.block),
-        tag,
+        // cw-multi-test tells every contract `transaction index 0`; anything else (e.g. a counter shared between
+        // app instances) shows up as a foreign code tag in the log
+        tag: tag + 1_000_000 * env.transaction.as_ref().map(|t| t.index as u64).unwrap_or(0),
         rep,
     });
 }
